@@ -557,6 +557,10 @@ func (v *Voter) processVoteMsg(ev VoteMsgEvent, status MsgReceivedStatus) (error
 		Votes:      vote.Votes,
 	}
 	err = v.verifySortitionFn(pubKey, data, lbType)
+	if err == errStaleSortition {
+		// old message with a credential that cannot be verified any more: ignore it
+		return nil, false
+	}
 	if err != nil {
 		logging.Error("verifyPriority msgPriorityProposal failed", "err", err)
 		return err, true
